@@ -96,6 +96,10 @@ func exprDepth(v ssa.Value, subst map[*ssa.Parameter]string, depth int) string {
 		}
 		return s + "]"
 	case *ssa.Phi:
+		if phiCyclic(x) {
+			// loop-carried value (induction variable, accumulator)
+			return "*" + x.Comment
+		}
 		parts := make([]string, 0, len(x.Edges))
 		seen := map[string]bool{}
 		for _, e := range x.Edges {
@@ -496,4 +500,46 @@ func LiveBlocks(fn *ssa.Function) map[*ssa.BasicBlock]bool {
 	}
 	walk(fn.Blocks[0])
 	return live
+}
+
+// phiCyclic reports whether the phi (transitively, through arithmetic and other phis)
+// depends on itself, i.e. is a loop-carried variable.
+func phiCyclic(p *ssa.Phi) bool {
+	seen := map[ssa.Value]bool{}
+	var walk func(v ssa.Value, d int) bool
+	walk = func(v ssa.Value, d int) bool {
+		if d > 8 {
+			return false
+		}
+		if v == ssa.Value(p) && d > 0 {
+			return true
+		}
+		if seen[v] {
+			return false
+		}
+		seen[v] = true
+		switch x := v.(type) {
+		case *ssa.Phi:
+			for _, e := range x.Edges {
+				if walk(e, d+1) {
+					return true
+				}
+			}
+		case *ssa.BinOp:
+			return walk(x.X, d+1) || walk(x.Y, d+1)
+		case *ssa.Convert:
+			return walk(x.X, d+1)
+		case *ssa.UnOp:
+			return walk(x.X, d+1)
+		case *ssa.Call:
+			// append(acc, ...) accumulators
+			if b, ok := x.Call.Value.(*ssa.Builtin); ok && b.Name() == "append" && len(x.Call.Args) > 0 {
+				return walk(x.Call.Args[0], d+1)
+			}
+		case *ssa.Slice:
+			return walk(x.X, d+1)
+		}
+		return false
+	}
+	return walk(p, 0)
 }
